@@ -19,6 +19,7 @@ import time
 HERE = os.path.dirname(os.path.dirname(os.path.abspath(__file__)))
 PY = os.path.join(HERE, ".venv", "bin", "python")
 REPO = os.environ.get("VERIF_REPO", "/repo")
+OUT = os.environ.get("VERIF_OUT", HERE)  # evidence/ and replays/ go here (mutation runs use a scratch dir)
 
 CROSSHAIR_ASSUMPTIONS = [
     "engine: crosshair-tool 0.0.110 + z3 5.1.0 symbolically executing the harness, which calls the real asyncstdlib code in /repo's working tree through its public API only (no pre-translation, nothing cached)",
@@ -69,7 +70,7 @@ def job_id(job):
 
 
 def write_replay(prop, job, cex):
-    d = os.path.join(HERE, "replays", prop)
+    d = os.path.join(OUT, "replays", prop)
     os.makedirs(d, exist_ok=True)
     doc = {"property": prop, "module": job["module"], "fn": job["fn"], "part": job.get("part") or {}, "args": cex.get("args"), "kwargs": cex.get("kwargs") or {}, "signatures": cex.get("sigs"), "found_by": cex.get("source", "symbolic"), "message": cex.get("message")}
     h = hashlib.sha1(json.dumps([doc["module"], doc["fn"], doc["part"], doc["args"]], sort_keys=True, default=repr).encode()).hexdigest()[:10]
@@ -154,7 +155,7 @@ def main(argv):
     known_lines = []
     stale = []
     for k in open_f:
-        tmp = os.path.join(HERE, "replays", prop)
+        tmp = os.path.join(OUT, "replays", prop)
         os.makedirs(tmp, exist_ok=True)
         pth = os.path.join(tmp, "known-%s.json" % hashlib.sha1(json.dumps(k, sort_keys=True).encode()).hexdigest()[:10])
         with open(pth, "w") as f:
@@ -245,8 +246,8 @@ def main(argv):
         "wall_s": round(time.time() - t_start, 1),
         "violations": len(violations),
     }
-    os.makedirs(os.path.join(HERE, "evidence"), exist_ok=True)
-    with open(os.path.join(HERE, "evidence", prop + ".json"), "w") as f:
+    os.makedirs(os.path.join(OUT, "evidence"), exist_ok=True)
+    with open(os.path.join(OUT, "evidence", prop + ".json"), "w") as f:
         json.dump(ev, f, indent=1, default=repr)
 
     for line in known_lines:
